@@ -29,6 +29,25 @@ class post_align:
     params = dict(self=TLoader(TMolecules(features=["f0"])), results=TAlignResults("self_mole_N"), shape=_SHAPE)
     helpers = _H
     imports = NATIVE_IMPORTS
+
+    @staticmethod
+    def result(interp, bound):
+        """for callers (loader.align): a new loader of the same kind whose molecules are constrained by the clauses"""
+        from pyvc import symex as _X
+        from pyvc.rotation import RotV
+        from pyvc.frames import FrameV
+        me = bound["self"]
+        n = me.attrs["_molecules"].attrs["_pos"].shape[0]
+        nm = V.fresh_name("aligned")
+        feats = list(me.attrs["_molecules"].attrs["_features"].cols) if me.attrs["_molecules"].attrs["_features"] is not None else []
+        cols = feats + ["score", "align-dz", "align-dy", "align-dx", "align-dzrot", "align-dyrot", "align-dxrot"]
+        mol = _X.Obj(me.attrs["_molecules"].cls, {"_pos": fresh_array(nm + "_pos", 2, "real", shape=(n, 3)),
+                                                  "_rotator": RotV.symbolic(nm + "_rot", None, so3=False, n=n),
+                                                  "_features": FrameV.symbolic(nm + "_feat", n, cols)})
+        attrs = dict(me.attrs)
+        attrs.update(_molecules=mol, _output_shape=tuple(bound["shape"]))
+        return _X.Obj(me.cls, attrs)
+    call_ensures = ["count", "position", "orientation", "score_feature", "output_shape"]
     native_call = "args['self']._post_align(args['results'], args['shape'])"
     native = {
         "count": "len(result.molecules) == len(self.molecules)",
@@ -139,4 +158,41 @@ class construct_loading_tasks:
             "arr_eq(called_args_at('Backend.rotated_crop', i)['mtx'], called_at('prepare_affine', i)[1]) and "
             "called_args_at('Backend.rotated_crop', i)['shape'] == output_shape and "
             "called_args_at('Backend.rotated_crop', i)['order'] == self._order, (0, %s))" % _N,
+    }
+
+
+# ---------------------------------------------------------------------------
+# the public entry point: loader.align = (one model.align task per molecule) followed by the write-back
+from contracts.C10_scheduling import TModelFactory, _MS
+
+_BA = "BaseAlignmentModel.align"
+
+
+@contract("acryo.loader._base:LoaderBase.align", props=["C01", "C03"])
+class loader_align:
+    """single-template alignment, any number of molecules and all four models: task i aligns sub-volume i (box of the
+    model) with the search range max_shifts / scale pixels and molecule i's orientation and pixel position; molecule i
+    of the result is moved by the shift and rotation that task i returned (pos_i + scale * M_i s_i, M_i R_i) and carries
+    that task's score; the loader itself is not modified"""
+    params = dict(self=TLoader(TMolecules(features=["f0"], min_n=1), order=1), template=T.Arr(3, "real"), mask=T.Const(None),
+                  max_shifts=T.OneOf(T.Real(lo=0), _MS), alignment_model=TModelFactory(multi_cases=(False,)), backend=T.Const(None))
+    helpers = dict(_H, BA=_BA, ms=lambda m, a: m[a] if isinstance(m, tuple) else m)
+    may_raise = {"SubvolumeOutOfBoundError": "True"}
+    ensures = {
+        "one_result_per_molecule": "result._molecules._pos.shape[0] == %s" % _N,
+        "task_i_searches_the_requested_range":
+            "forall(lambda i: all(called_args_at(BA, i)['max_shifts'][a] == ms(max_shifts, a) / self._scale for a in range(3)), (0, %s))" % _N,
+        "task_i_is_molecule_i":
+            "forall(lambda i: arr_eq(called_args_at(BA, i)['img'], called('construct_loading_tasks')._arrays[i]) and "
+            "all(called_args_at(BA, i)['pos'][a] == self._molecules._pos[i, a] / self._scale for a in range(3)), (0, %s))" % _N,
+        "molecule_i_moved_by_shift_i":
+            "forall(lambda i: all(result._molecules._pos[i, a] == self._molecules._pos[i, a] + self._scale * "
+            "matvec(M(self._molecules._rotator, i), (called_at(BA, i).shift[0], called_at(BA, i).shift[1], called_at(BA, i).shift[2]))[a] "
+            "for a in range(3)), (0, %s))" % _N,
+        # no rotation is searched by these models: the orientation is kept
+        "orientation_kept_without_rotation_search":
+            "forall(lambda i: mateq(M(result._molecules._rotator, i), M(self._molecules._rotator, i)), (0, %s))" % _N,
+        "score_of_task_i":
+            "forall(lambda i: result._molecules._features['score'].arr[i] == called_at(BA, i).score, (0, %s))" % _N,
+        "frame": "writes_to(self) == 0 and writes_to(self._molecules) == 0 and result is not self",
     }
